@@ -149,9 +149,10 @@ func satisfiesPessimistic(version, constraint *Version) bool {
 		return false
 	}
 
-	// Get the numeric parts of both version and constraint for comparison
-	versionNumeric, _ := version.splitNumericAndPrerelease()
-	constraintNumeric, constraintPrerelease := constraint.splitNumericAndPrerelease()
+	// Get the leading numeric parts of both version and constraint for comparison
+	// (numbers after a pre-release segment, as in 1.0.rc1, belong to the pre-release)
+	versionNumeric, _ := version.splitLeadingNumeric()
+	constraintNumeric, constraintPrerelease := constraint.splitLeadingNumeric()
 
 	// For range calculations, we need to understand the original precision
 	// Count numeric segments from the original constraint string
@@ -193,4 +194,14 @@ func satisfiesPessimistic(version, constraint *Version) bool {
 	}
 
 	return true
+}
+
+// splitLeadingNumeric splits the segments at the first pre-release (non-numeric) segment
+func (v *Version) splitLeadingNumeric() ([]segment, []segment) {
+	for i, seg := range v.segments {
+		if !seg.isNumeric {
+			return v.segments[:i], v.segments[i:]
+		}
+	}
+	return v.segments, nil
 }
